@@ -4,6 +4,7 @@ package main
 
 import (
 	"fmt"
+	"go/ast"
 	"go/token"
 	"go/types"
 	"sort"
@@ -73,27 +74,30 @@ type Obligation struct {
 }
 
 type Exec struct {
-	freshRefs []*Term // objects allocated while executing the function under verification
-	w         *World
-	pkg       *PkgInfo
-	fn        *FuncInfo
-	obls      []*Obligation
-	facts     map[int]*Term
-	factKeys  map[int]*Term
-	locTypes  map[string]types.Type
-	quiet     int
-	depth     int
-	names     map[string]int
-	prefix    []string
-	warnings  map[string]bool
-	actSeq    int
-	frames    []*Frame
-	inputs    []*Term
-	inlined   map[string]bool
-	axioms    []*Term // quantified background axioms (count functions etc.)
-	ufRange   map[string]*Term
-	noFacts   bool
-	counts    map[string]*countDef
+	funcLits     map[*Term]*ast.FuncLit // function literals met so far, by the term that names them
+	funcLitOrder []*Term
+	pkgVars      map[*types.Var]Value // evaluated initialisers of package variables that are never assigned
+	freshRefs    []*Term              // objects allocated while executing the function under verification
+	w            *World
+	pkg          *PkgInfo
+	fn           *FuncInfo
+	obls         []*Obligation
+	facts        map[int]*Term
+	factKeys     map[int]*Term
+	locTypes     map[string]types.Type
+	quiet        int
+	depth        int
+	names        map[string]int
+	prefix       []string
+	warnings     map[string]bool
+	actSeq       int
+	frames       []*Frame
+	inputs       []*Term
+	inlined      map[string]bool
+	axioms       []*Term // quantified background axioms (count functions etc.)
+	ufRange      map[string]*Term
+	noFacts      bool
+	counts       map[string]*countDef
 }
 
 func newExec(w *World, pkg *PkgInfo, fn *FuncInfo) *Exec {
